@@ -47,6 +47,10 @@ def cases(tier, seed):
                         continue
                     out.append({"kind": "triple", "tree": tname, "roots": roots, "gargs": gargs, "entries": entries,
                                 "fmt": fmt, "op": op, "n": n, "prio": prio, "pat": pat})
+                    if op == "move" and tname in ("s:three_groups", "s:one_group", "n:0") and n is None and prio is None and pat is None:
+                        # the target directory already holds a file at every destination path: the real run refuses
+                        out.append({"kind": "triple", "tree": tname, "roots": roots, "gargs": gargs, "entries": entries,
+                                    "fmt": fmt, "op": op, "n": n, "prio": prio, "pat": pat, "prepop": True})
                     if tname in ("s:three_groups", "s:hard_links", "n:0") and n is None and prio is None and pat is None:
                         # stale report: a member of the gi-th group vanished after `group` (the group is then skipped)
                         for gi in (0, 1, 2):
@@ -178,6 +182,8 @@ def evaluate(case):
 
         vanished = []
 
+        members = []
+
         def rebuild():
             C.rmtree(sc.tree)
             C.rmtree(target)
@@ -185,9 +191,19 @@ def evaluate(case):
             C.make_tree(sc.tree, entries)
             for p in vanished:
                 os.unlink(p)
+            if case.get("prepop"):
+                for k, p in enumerate(members):
+                    tp = C.b(target) + p
+                    os.makedirs(os.path.dirname(tp), exist_ok=True)
+                    with open(tp, "wb") as f:
+                        f.write(b"already archived %d" % k)
         rebuild()
         report = D.make_report(sc, ["--min", "0"] + case["gargs"], case["roots"], fmt=case["fmt"])
         rep = D.report_groups(report)
+        members.extend(p for g in rep.groups for p in g["paths"])
+        if case.get("prepop"):
+            rebuild()
+            feat = dict(feat, target_prepopulated=True)
         if case.get("vanish") is not None and case["vanish"] < len(rep.groups):
             vanished.append(rep.groups[case["vanish"]]["paths"][-1])
             os.unlink(vanished[0])
